@@ -436,6 +436,11 @@ pub fn ref_walk(cwd: &Path, start: &str, cfg: &WalkCfg, out: &mut RefWalk) {
             out.must.push((shown.to_string(), depth));
         }
     }
+    if start.is_empty() {
+        // the empty string names nothing (ENOENT): diagnosed, nothing walked in its place
+        out.diag_owed = true;
+        return;
+    }
     let mut anc = vec![];
     walk(&cwd.join(start), start, 0, cfg, &mut anc, out);
 }
